@@ -14,7 +14,7 @@ TOOLS := mtbl_dump mtbl_info mtbl_verify mtbl_merge
 ENGINES := table merge sorter fileset corrupt sched leak wfault
 ENGINE_SRC := $(foreach e,$(ENGINES),$(wildcard engines/$(e).cc))
 HAVE := $(foreach e,$(ENGINES),$(if $(wildcard engines/$(e).cc),-DHAVE_$(shell echo $(e) | tr a-z A-Z)))
-HARNESS_CC := engines/main.cc engines/common.cc engines/stubs.cc model/mtblfmt.cc $(ENGINE_SRC)
+HARNESS_CC := engines/main.cc engines/common.cc engines/stubs.cc engines/tablelib.cc model/mtblfmt.cc $(ENGINE_SRC)
 
 FLAGS_asan := -O1 -g -fno-omit-frame-pointer -fsanitize=address,undefined -fno-sanitize=alignment -fno-sanitize-recover=undefined
 FLAGS_tsan := -O1 -g -fno-omit-frame-pointer -fsanitize=thread
